@@ -55,3 +55,7 @@ def extra(ctx, harness_bin, driver_bin):
         return
     n = REAL_CASES[ctx.tier]
     _fs.real_run(ctx, harness_bin, driver_bin, "real17", HARNESS[1], n, [('diag:same:SS', int(n * 0.3)), ('diag:same:NN', int(n * 0.1))])
+    # compile-level half built by the watch family: the real compile() (batch and watch recompiles) on
+    # single-fault mutants must leave the artifact directory byte- and mtime-identical
+    from props import _c17_compile_level
+    _c17_compile_level.run(ctx)
